@@ -326,6 +326,95 @@ func VerifC14_FullFeedOfAnotherSubscriber() {
 	rt.Reach("fullfeed-end")
 }
 
+// a hook is cancelled while a put is in the middle of its hooks (held inside
+// an earlier hook): once Cancel has returned, the hook is not called any more -
+// also not by the operation that was under way
+type c14GateHook struct {
+	gate    chan struct{}
+	entered chan struct{}
+}
+
+func (h *c14GateHook) UsesPreGet() bool  { return false }
+func (h *c14GateHook) UsesPostGet() bool { return false }
+func (h *c14GateHook) UsesPrePut() bool  { return true }
+func (h *c14GateHook) PreGet(string) error {
+	return nil
+}
+func (h *c14GateHook) PostGet(r record.Record) (record.Record, error) { return r, nil }
+func (h *c14GateHook) PrePut(r record.Record) (record.Record, error) {
+	close(h.entered)
+	<-h.gate
+	return r, nil
+}
+
+type c14WatchHook struct {
+	cancelReturned *bool
+	calls          int
+}
+
+func (h *c14WatchHook) UsesPreGet() bool  { return false }
+func (h *c14WatchHook) UsesPostGet() bool { return false }
+func (h *c14WatchHook) UsesPrePut() bool  { return true }
+func (h *c14WatchHook) PreGet(string) error {
+	return nil
+}
+func (h *c14WatchHook) PostGet(r record.Record) (record.Record, error) { return r, nil }
+func (h *c14WatchHook) PrePut(r record.Record) (record.Record, error) {
+	h.calls++
+	rt.Assert(!*h.cancelReturned, "hookcancel/hook-not-called-after-its-cancel-returned")
+	return r, nil
+}
+
+func VerifC14_HookCancelDuringOperation() {
+	rt.NoTimers()
+	rt.SchedYieldOnly(true)
+	c14Setup()
+	iface := NewInterface(&Options{Local: true, Internal: true})
+	first := &c14GateHook{gate: make(chan struct{}), entered: make(chan struct{})}
+	_, err := RegisterHook(query.New("t:a/"), first)
+	rt.Assert(err == nil, "hookcancel/register-ok")
+	cancelReturned := false
+	// further hooks behind the first: the one in the middle or the last is cancelled
+	watchers := []*c14WatchHook{{cancelReturned: new(bool)}, {cancelReturned: new(bool)}}
+	var regs []*RegisteredHook
+	for _, w := range watchers {
+		rh, err := RegisterHook(query.New("t:a/"), w)
+		rt.Assert(err == nil, "hookcancel/register-ok")
+		regs = append(regs, rh)
+	}
+	victim := rt.Choice("cancelled-hook", 2)
+	watchers[victim].cancelReturned = &cancelReturned
+	putDone := make(chan struct{})
+	go func() {
+		_ = iface.Put(c14NewRec("a/x", 1, false, false))
+		close(putDone)
+	}()
+	<-first.entered // the put is inside the first hook
+	cancelDone := make(chan struct{})
+	go func() {
+		_ = regs[victim].Cancel()
+		cancelReturned = true
+		close(cancelDone)
+	}()
+	rt.Yield()
+	close(first.gate)
+	<-putDone
+	<-cancelDone
+	// every hook was called at most once for the one put
+	for _, w := range watchers {
+		rt.Assert(w.calls <= 1, "hookcancel/hook-called-at-most-once-per-operation")
+	}
+	// afterwards the cancelled hook is not called, the other one is
+	before := []int{watchers[0].calls, watchers[1].calls}
+	close0 := make(chan struct{})
+	first.gate, first.entered = close0, make(chan struct{})
+	close(close0)
+	rt.Assert(iface.Put(c14NewRec("a/y", 2, false, false)) == nil, "hookcancel/second-put-ok")
+	rt.Assert(watchers[victim].calls == before[victim], "hookcancel/cancelled-hook-not-called-again")
+	rt.Assert(watchers[1-victim].calls == before[1-victim]+1, "hookcancel/other-hook-still-called")
+	rt.Reach("hookcancel-end")
+}
+
 func VerifC14_Hooks() {
 	rt.NoTimers()
 	c := c14Setup()
